@@ -53,12 +53,12 @@ ENGINE = {'C13': 'h_mt', 'C06': 'h_cv', 'C05': 'h_cv', 'C17': 'h_sel', 'C01': 'h
 
 REAL_VS_STUB = {
     'real': ['every libscientific source listed in src/CMakeLists.txt, compiled from $REPO working tree (datasets.c without instrumentation)',
-             'reference LAPACK/BLAS (liblapack.a, libblas.a, single threaded)', 'SQLite (libsqlite3.a) on real files under /dev/shm',
+             'BLAS/LAPACK from the static archives liblapack.a / libblas.a of the image (OpenBLAS 0.3.21, pthread build) with its worker pool disabled: every harness process re-executes itself with OPENBLAS_NUM_THREADS=1', 'SQLite (libsqlite3.a) on real files under /dev/shm',
              'glibc pthreads as carriers of simulated threads (one runnable at a time)'],
     'simulated': ['thread scheduling (pthread_create/join/exit redirected; every switch decided by the seeded scheduler)',
                   'processor count (sysconf)', 'wall clock (time)', 'allocator behaviour (garbage fill, moving realloc, allocation failure)',
                   'abort() (captured, call unwound)', 'SQLite VFS (fault plan per operation)'],
-    'substituted': ['OpenBLAS (threaded, used by the shipped .so) replaced by reference BLAS/LAPACK so that no thread pool escapes the scheduler']
+    'substituted': ['the OpenBLAS worker pool the shipped .so would use is switched off (one BLAS thread), so that no thread escapes the scheduler']
 }
 
 def log(*a):
@@ -166,6 +166,7 @@ def main():  # noqa
     root = '/dev/shm/lsci-verif-%d' % os.getpid()
     os.makedirs(root, exist_ok=True)
     os.environ['SIM_SCRATCH_ROOT'] = root
+    os.environ['OPENBLAS_NUM_THREADS'] = '1'   # no BLAS worker pool inside simulated processes (the harness would otherwise re-exec itself to get this)
     atexit.register(shutil.rmtree, root, True)
     return main_()
 
@@ -438,7 +439,7 @@ def main_():  # noqa
         cov['grid_exhaustive'] = agg['counters'].get('grid.points', 0) >= 3 * GRID_MT
         cov['grid_points_run'] = agg['counters'].get('grid.points', 0)
     ev = {'property_id': pid, 'tier': tier, 'seed': seed, 'level': 'exploration', 'coverage': cov,
-          'assumptions': ASSUMPTIONS.get(pid, []) + ['reference BLAS/LAPACK instead of OpenBLAS', 'accesses inside uninstrumented dependencies (LAPACK, SQLite, libc) are invisible to the race detector'],
+          'assumptions': ASSUMPTIONS.get(pid, []) + ['OpenBLAS restricted to one thread', 'accesses inside uninstrumented dependencies (LAPACK, SQLite, libc) are invisible to the race detector'],
           'wall_s': round(wall, 2), 'violations': len(reported)}
     evdir = os.path.join(VERIF, 'evidence') if os.path.realpath(REPO) == '/repo' else os.path.join(VERIF, 'build', 'tmp', 'evidence-other-repo')
     os.makedirs(evdir, exist_ok=True)
